@@ -157,11 +157,14 @@ def kaldi_pipeline(ctx):
         for name in sorted(roles.get(role, ())):
             fams, dests, problems, n_app = cc.list_provenance(prog, f, name, afs)
             for node, msg in problems:
-                ctx.bad(R, f, node, msg, "collection built from its option in order")
-            ctx.check({c.short for c in fams} == {fam} and dests == {dest} and n_app >= 2, R, f, f.node,
+                ctx.bad(R, f, node, msg, "collection built from its option in order", structural=not msg.startswith("DEFINITE"))
+            fs = {c.short for c in fams}
+            recognised = bool(fs) and bool(dests) and n_app >= 1 and not problems
+            wrong = (bool(fs) and fs != {fam}) or (bool(dests) and dests != {dest})
+            ctx.check(recognised and not wrong, R, f, f.node,
                       "%s-processors applied are those built from --%s with family %s" % (role, dest, fam),
                       "the %s-processing list `%s` is built from %s with families %s, expected options.%s / %s"
-                      % (role, name, sorted(dests), sorted(c.short for c in fams), dest, fam))
+                      % (role, name, sorted(dests), sorted(fs), dest, fam), structural=not wrong)
         ctx.check(bool(roles.get(role)), R, f, wst, "a %s-processing stage exists on the chain" % role,
                   "no %s-processing stage on the chain to the stored value" % role)
     for name in sorted(roles.get("computer", ())):
@@ -315,11 +318,13 @@ def torch_pipeline(ctx):
         fam, dest = want[role]
         fams, dests, problems, n_app = cc.list_provenance(prog, tool, a.id, afs)
         for node, msg in problems:
-            ctx.bad(R, tool, node, msg, "collection built from its option in order")
-        ctx.check({c.short for c in fams} == {fam} and dests == {dest}, R, tool, astq.enclosing_stmt(pm, site),
+            ctx.bad(R, tool, node, msg, "collection built from its option in order", structural=not msg.startswith("DEFINITE"))
+        fs = {c.short for c in fams}
+        wrong = (bool(fs) and fs != {fam}) or (bool(dests) and dests != {dest})
+        ctx.check(bool(fs) and bool(dests) and not problems and not wrong, R, tool, astq.enclosing_stmt(pm, site),
                   "the %s-processing stage of the dataset receives the list built from --%s (%s -> %s -> %s)" % (role, dest, a.id, p, attr),
                   "the %s-processing stage (%s) receives `%s`, which is built from options.%s with families %s; expected options.%s / %s"
-                  % (role, attr, a.id, sorted(dests), sorted(c.short for c in fams), dest, fam))
+                  % (role, attr, a.id, sorted(dests), sorted(fs), dest, fam), structural=not wrong)
     if "force_as" in attr_roles:
         p = attr2param.get(attr_roles["force_as"])
         a = actual.get(p)
@@ -636,38 +641,34 @@ def torch_twins(ctx):
         "computer": [c for c in prog.subclasses(prog.cls("compute.FrameComputer")) if prog.is_concrete(c)],
         "preprocessor": [c for c in prog.subclasses(prog.cls("pre.PreProcessor")) if prog.is_concrete(c)],
     }
+    # the conversion code: the tool and every function of its module that it (transitively) calls
+    reach, work = [], [tool]
+    while work:
+        g = work.pop()
+        if g in reach:
+            continue
+        reach.append(g)
+        for c_ in astq.func_calls(g):
+            t_ = prog.resolve(g.module, c_.func, g)
+            if isinstance(t_, FunctionInfo) and t_.module is tool.module and t_ not in reach:
+                work.append(t_)
+    mentioned = set()
+    for g in reach:
+        for x in g.body_nodes():
+            if isinstance(x, (ast.Name, ast.Attribute)):
+                r = prog.resolve(g.module, x, g)
+                if isinstance(r, ClassInfo):
+                    mentioned.add(r.qualname)
+    roots = {"computer": prog.cls("compute.FrameComputer"), "preprocessor": prog.cls("pre.PreProcessor")}
     for var, classes in fam_concrete.items():
-        handled = {}
-        chains = []
-        for n in tool.body_nodes():
-            if isinstance(n, ast.If):
-                t = n.test
-                if isinstance(t, ast.Call) and astq.is_name(t.func, "isinstance") and len(t.args) == 2 and astq.is_name(t.args[0], var):
-                    r = prog.resolve(tool.module, t.args[1], tool)
-                    if isinstance(r, ClassInfo):
-                        handled[r.qualname] = n
-                        chains.append(n)
         for c in classes:
-            ctx.check(c.qualname in handled, R, tool, tool.node, "%s has a PyTorch conversion branch" % c.short,
-                      "no isinstance(%s, %s) conversion branch: a %s configuration cannot be used" % (var, c.name, c.name))
-        # each branch converts with a from_* classmethod of a torch module, else NotImplementedError
-        for q, n in handled.items():
-            st = n.body[0] if n.body else MISSING(None)
-            v = st.value if isinstance(st, ast.Assign) else None
-            ok = isinstance(v, ast.Call) and isinstance(v.func, ast.Attribute) and v.func.attr.startswith("from_") and \
-                len(v.args) == 1 and astq.is_name(v.args[0], var)
-            tgt = prog.resolve(tool.module, v.func, tool) if ok else None
-            ctx.check(ok and isinstance(tgt, FunctionInfo) and tgt.module.name.endswith(".torch"), R, tool, st or n,
-                      "the %s branch converts with a torch module's from_* factory" % q.rsplit(".", 1)[-1],
-                      "conversion branch for %s is not `x = <TorchModule>.from_*(%s)`" % (q, var))
-        if chains:
-            last = chains[-1]
-            tail = last.orelse
-            while tail and isinstance(tail[0], ast.If):
-                tail = tail[0].orelse
-            ok = len(tail) == 1 and isinstance(tail[0], ast.Raise) and astq.raise_type(prog, tool, tail[0]) == "NotImplementedError"
-            ctx.check(ok, R, tool, last, "an unconvertible %s raises NotImplementedError" % var,
-                      "an unconvertible %s does not raise NotImplementedError (it would be used unconverted)" % var)
+            covered = any(a_.qualname in mentioned for a_ in prog.mro(c) if a_ is not roots[var] and roots[var] in prog.mro(a_))
+            ctx.check(covered, R, tool, tool.node, "%s is handled by the conversion to PyTorch modules" % c.short,
+                      "the conversion code (%s) never names %s nor one of its concrete bases: a %s configuration cannot be converted and is "
+                      "rejected or used unconverted" % (", ".join(g.name for g in reach)[:80], c.name, c.name))
+    nie = [r_ for g in reach for r_ in astq.raises_of(g) if astq.raise_type(prog, g, r_) == "NotImplementedError"]
+    ctx.check(len(nie) >= 2, R, tool, tool.node, "an unconvertible computer / pre-processor raises NotImplementedError",
+              "fewer than two `raise NotImplementedError` exits in the conversion code", structural=True)
     # in-place replacement keeps list order; post-processors are wrapped by an in-order comprehension
     for n in tool.body_nodes():
         if isinstance(n, ast.For) and isinstance(n.iter, ast.Call) and astq.is_name(n.iter.func, "enumerate"):
@@ -679,14 +680,14 @@ def torch_twins(ctx):
                     t = s.targets[0]
                     ctx.check(astq.text(t.value) == astq.text(lst) and idx is not None and astq.text(t.slice) == astq.text(idx), R, tool, s,
                               "converted pre-processors replace their originals at the same index",
-                              "converted element is stored at %s, not at its own index in %s" % (astq.text(t), astq.text(lst)))
+                              "converted element is stored at %s, not at its own index in %s" % (astq.text(t), astq.text(lst)), structural=True)
         if isinstance(n, ast.Assign) and isinstance(n.value, ast.ListComp) and len(n.targets) == 1 and isinstance(n.targets[0], ast.Name):
             comp = n.value
             if isinstance(comp.elt, ast.Call) and isinstance(comp.elt.func, ast.Attribute) and comp.elt.func.attr.startswith("from_"):
                 gen = comp.generators[0]
                 ctx.check(len(comp.generators) == 1 and not gen.ifs and astq.is_name(gen.iter, n.targets[0].id), R, tool, n,
                           "post-processors are wrapped one-to-one, in order",
-                          "the wrapping comprehension filters or reorders the post-processors: %s" % astq.text(comp))
+                          "the wrapping comprehension filters or reorders the post-processors: %s" % astq.text(comp), structural=bool(not gen.ifs))
     # factories copy their parameters: from_preemphasize / from_dither pass coeff
     tm = prog.module("torch")
     for cls, meth, attr in (("PyTorchPreemphasize", "from_preemphasize", "coeff"), ("PyTorchDither", "from_dither", "coeff")):
